@@ -45,6 +45,8 @@ class CdcNetlist(Netlist):
         Netlist.__init__(self, module, clocks=clocks, special_overrides={MultiReg: self.rec})
         self.mr = dict(self.rec.impl)          # id(special) -> (special, impl)
         self.changing_samples = 0              # statistics: resolutions that mattered
+        self.pending_inputs = []               # [(input signal, value, domain)]: inputs driven by a register of the
+                                               # environment in `domain` — they change AT that domain's edge
         regs = set(self.regs)
         # fast path: every synchroniser samples a register directly (true for all Migen/LiteX users here)
         self.src_is_reg = all(isinstance(impl.i, Signal) and impl.i in regs for _, impl in self.mr.values())
@@ -81,6 +83,10 @@ class CdcNetlist(Netlist):
             if cd in self.sync:
                 ev.execute(self.sync[cd])
         ev.commit()
+        for sig, val, cd in self.pending_inputs:
+            if cd in cds:
+                self.set(sig, val)
+        self.pending_inputs = []
         if not self.src_is_reg:
             ev.execute(self.comb)
             self._propagate()
@@ -495,8 +501,15 @@ _explore.coexplore = _dispatch_coexplore
 
 class BusSyncInst:
     """litex.gen.genlib.cdc.BusSynchronizer(width >= 2, "i", "o", timeout).
-       letter : (ti, to, mPing, mPong, mBuf, i)      outputs: [o]"""
-    FMT = "ti, to, ping flop catches new, pong flop catches new, obuffer first-flop mask, i"
+       letter : (ti, to, mPing, mPong, mBuf, i, i_load)      outputs: [o]
+       The bus `i` is driven by a register of the environment in the i domain: `i` (letter[5]) is the word on the
+       bus in this instant, `i_load` the word that register takes at this instant's i-edge (on the bus from the
+       next instant on).  So the bus changes exactly at i-clock edges, and a synchroniser flop that samples the bus
+       DIRECTLY at a coincident o-edge catches, bit by bit, the old or the new word (mask mBuf) — whatever
+       structure the module under test has: the first-stage flops are all the MultiReg flops that exist, the
+       request/acknowledge ones if there are any.  Model and monitors see letter[:6]."""
+    FMT = ("ti, to, ping flop catches new, pong flop catches new, data first-flop mask, word on i, "
+           "word loaded onto i at this i-edge")
 
     def __init__(self, name, width, timeout, values=None, ratio_max=None, pattern=None):
         from litex.gen.genlib.cdc import BusSynchronizer
@@ -505,11 +518,16 @@ class BusSyncInst:
         self.width, self.timeout = width, timeout
         self.module = m = BusSynchronizer(width, "i", "o", timeout=timeout)
         self.lean_open = "bussync %d %d" % (width, timeout)
-        self.sp_ping = own_multiregs(m._ping)[0]
-        self.sp_pong = own_multiregs(m._pong)[0]
-        self.sp_buf = own_multiregs(m)[0]
+        first = lambda sub: (own_multiregs(sub) or [None])[0] if sub is not None else None
+        self.sp_ping = first(getattr(m, "_ping", None))
+        self.sp_pong = first(getattr(m, "_pong", None))
+        self.sp_buf = first(m)                  # the data-path synchroniser (declared by the module itself)
         self.netlist = CdcNetlist(m, clocks=("i", "o"))
-        self.mask_order = [id(self.sp_ping), id(self.sp_pong), id(self.sp_buf)]
+        named = [self.sp_ping, self.sp_pong, self.sp_buf]
+        self.mask_order = [id(sp) for sp in named if sp is not None]
+        # any further synchroniser the module may contain is resolved with the data mask as well
+        self.extra = [sid for sid in self.netlist.mr if sid not in self.mask_order]
+        self.mask_order += self.extra
         self.values = list(values) if values is not None else (
             list(range(1 << width)) if width <= 4 else [0, (1 << width) - 1])
         self.qual = [None]
@@ -520,35 +538,51 @@ class BusSyncInst:
         self.ratio_max = ratio_max
         self._pat = None
 
-    # mode A
+    def model_letter(self, letter):
+        return list(letter[:6])
+
+    def _maskdict(self, mp, mq, mb):
+        d = {sid: mb for sid in self.extra}
+        for sp, m in ((self.sp_ping, mp), (self.sp_pong, mq), (self.sp_buf, mb)):
+            if sp is not None:
+                d[id(sp)] = m
+        return d
+
+    # mode A: the word currently on the bus is harness-side state (part of the explored product)
     def pst_init(self):
         return 0
 
     def pst_next(self, pst, letter, outs):
-        return 0
+        return letter[6] if letter[0] else pst
 
     def base_letters(self, pst):
-        L = [(0, 1, self.values[0])]
+        L = [(0, 1, pst, pst)]
         for v in self.values:
-            L.append((1, 0, v))
-            L.append((1, 1, v))
+            L.append((1, 0, v, pst))
+            L.append((1, 1, v, pst))
         return L
 
     def cds_of(self, base):
         return tuple(cd for cd, t in (("i", base[0]), ("o", base[1])) if t)
 
     def make_letter(self, base, masks):
-        ti, to, v = base
-        return (ti, to, masks.get(id(self.sp_ping), 0) & 1, masks.get(id(self.sp_pong), 0) & 1,
-                masks.get(id(self.sp_buf), 0), v)
+        ti, to, load, vis = base
+        g = lambda sp: masks.get(id(sp), 0) if sp is not None else 0
+        mb = g(self.sp_buf)
+        for sid in self.extra:
+            mb |= masks.get(sid, 0)
+        return (ti, to, g(self.sp_ping) & 1, g(self.sp_pong) & 1, mb, vis, load)
 
     def clocks(self, letter):
-        ti, to, mp, mq, mb, v = letter
-        return Tick((self.cds_of((ti, to, v)), {id(self.sp_ping): mp, id(self.sp_pong): mq, id(self.sp_buf): mb}))
+        ti, to, mp, mq, mb = letter[:5]
+        return Tick((self.cds_of((ti, to)), self._maskdict(mp, mq, mb)))
 
     def apply(self, letter):
-        self.netlist.set(self.module.i, letter[5])
-        self.netlist.settle()
+        n = self.netlist
+        n.set(self.module.i, letter[5])
+        n.settle()
+        # the environment's register: the bus takes the new word at this instant's i-edge
+        n.pending_inputs = [(self.module.i, letter[6], "i")] if len(letter) > 6 and letter[0] else []
 
     def sample(self):
         return [self.netlist.getu(self.module.o)]
@@ -570,16 +604,20 @@ class BusSyncInst:
                 self._pat = PeriodicClocks(*rng.choice(PeriodicClocks.admissible(R)))
             else:
                 self._pat = BoundedRatioClocks(rng, R)
-            self._cur = rng.randint(0, (1 << self.width) - 1)
+            self._cur = 0       # the environment's register starts at its reset value
             self._hold = 0
         ti, to = self._pat.next(rng)
+        vis = load = self._cur
         if ti:
             if self._hold <= 0:
-                self._cur = rng.randint(0, (1 << self.width) - 1)
+                load = rng.randint(0, (1 << self.width) - 1)
+                if rng.random() < 0.3:
+                    load = vis ^ ((1 << self.width) - 1)      # every bit flips at once
                 self._hold = rng.randint(1, 4) if rng.random() < 0.5 else rng.randint(40, 120)
             self._hold -= 1
+            self._cur = load
         full = (1 << self.width) - 1
-        return (ti, to, rng.randint(0, 1), rng.randint(0, 1), rng.choice((0, full, rng.randint(0, full))), self._cur)
+        return (ti, to, rng.randint(0, 1), rng.randint(0, 1), rng.choice((0, full, rng.randint(0, full))), vis, load)
 
     def monitor(self):
         if self.R < 0 or (self.pattern is not None and PeriodicClocks.bursts(self.pattern)[0] > self.R):
@@ -662,7 +700,7 @@ class CoherenceMonitor:
         self.past = {0}
 
     def observe(self, letter, outs):
-        ti, to, mp, mq, mb, v = letter
+        ti, to, mp, mq, mb, v = letter[:6]
         msg = None
         if outs[0] not in self.past:
             msg = "o = %d was never present on i (past values %s)" % (outs[0], sorted(self.past)[:16])
@@ -685,7 +723,7 @@ class ConvergenceMonitor:
         self.si = self.so = False
 
     def observe(self, letter, outs):
-        ti, to, mp, mq, mb, v = letter
+        ti, to, mp, mq, mb, v = letter[:6]
         msg = None
         if self.v is not None and self.blocks >= self.N and outs[0] != self.v:
             msg = "i held at %d for %d blocks (both clocks ticking) but o = %d" % (self.v, self.blocks, outs[0])
